@@ -10,7 +10,8 @@ HOW = ("harness/seedtest.py: scratch git worktree of /repo under /tmp, `git appl
 
 def newest(seed):
     best = None
-    for f in glob.glob(os.path.join(ROOT, "build", "seedtest*_%s.json" % seed)):
+    final = os.path.join(ROOT, "build", "final_%s.json" % seed)
+    for f in ([final] if os.path.exists(final) and os.path.getsize(final) > 0 else glob.glob(os.path.join(ROOT, "build", "seedtest*_%s.json" % seed))):
         try:
             r = json.load(open(f))
         except Exception:
@@ -23,7 +24,8 @@ def newest(seed):
 def first_runs(seed):
     """all recorded runs oldest first: (detected, nfi) per run, to record a miss before a check was strengthened"""
     out = []
-    for f in sorted(glob.glob(os.path.join(ROOT, "build", "seedtest*_%s.json" % seed)), key=os.path.getmtime):
+    fs = glob.glob(os.path.join(ROOT, "build", "seedtest*_%s.json" % seed)) + glob.glob(os.path.join(ROOT, "build", "final_%s.json" % seed))
+    for f in sorted(fs, key=os.path.getmtime):
         try:
             r = json.load(open(f))
             for k, v in r.get("checks", {}).items():
@@ -53,7 +55,16 @@ def main(pat):
         json.dump(rec, open(os.path.join(d, "verification.json"), "w"), indent=1)
         meta = json.load(open(os.path.join(d, "meta.json")))
         desc = re.sub(r"\s+", " ", (meta.get("description") or "")).replace("|", "/")[:150]
+        benign = meta.get("kind") == "benign" or "-b" in seed
         for k, v in checks.items():
+            if benign:
+                tie = ""
+                if v["detected"] and len(v["first_lines"]) > 1:
+                    m = re.search(r"\[(.*?)\]", v["first_lines"][1])
+                    tie = " (%s)" % m.group(1).replace("'", "") if m else ""
+                verdict = "quiet (exit 0)" if not v["detected"] else ("no-failing-input-found%s" % tie if not v["found_failing_input"] else "FALSE ALARM with an input")
+                rows.append("| %s | %s | %s | `./check %s`: %s |" % (seed, desc, "yes" if rec["confirmed_by_coordinator"] else "NO", k, verdict))
+                continue
             caught = "VIOLATION with failing input" if v["found_failing_input"] else ("VIOLATION no-failing-input-found" if v["detected"] else "MISSED")
             note = ""
             if any(not h[1] for h in hist[:-1]):
